@@ -206,3 +206,26 @@ func ga_PtAdd(p, a, b *EdwardsPoint) *EdwardsPoint {
 	SetPid(p, v)
 	return p
 }
+
+func GSub(a, b verif.BV) verif.BV  { return verif.UFBV("ed_sub", 256, a, b) }
+func GEqual(a, b verif.BV) bool    { return verif.UFBVBool("ed_equal", a, b) }
+func GIsIdentity(a verif.BV) bool  { return verif.UFBVBool("ed_is_identity", a) }
+
+//verif:contract for=(*curve.EdwardsPoint).Sub group=gapi
+func ga_PtSub(p, a, b *EdwardsPoint) *EdwardsPoint {
+	v := GSub(Pid(a), Pid(b))
+	verif.Havoc(p)
+	SetPid(p, v)
+	return p
+}
+
+//verif:contract for=(*curve.EdwardsPoint).Equal group=gapi
+func ga_PtEqual(p, other *EdwardsPoint) int {
+	if GEqual(Pid(p), Pid(other)) {
+		return 1
+	}
+	return 0
+}
+
+//verif:contract for=(*curve.EdwardsPoint).IsIdentity group=gapi
+func ga_PtIsIdentity(p *EdwardsPoint) bool { return GIsIdentity(Pid(p)) }
